@@ -58,15 +58,35 @@ def is_elements(seq: Seq):
 
 
 class SolverIR:
-    def __init__(self, model, opaque_methods=('_check_powertrain_is_locked',)):
+    def __init__(self, model, opaque_methods=None):
         self.model = model
         self.sx = SX(model)
         self.ctx = self.sx.ctx
         self.sx.loop_handler = self.loop
         self.sx.call_hook = self.call_hook
+        if opaque_methods is None:
+            opaque_methods = self.state_deciders(model)
         self.sx.opaque_calls |= set(opaque_methods) | {'check_condition'}
         self.n = Rat.atom(NATOM)
         self.loops = {}
+
+    @staticmethod
+    def state_deciders(model):
+        """helper methods of Solver that assign boolean constants to solver fields (mode decisions such as the
+        lock of a self-locking powertrain): kept as calls in the run IR and analysed on their own (C13)"""
+        out = set()
+        ci = model.classes.get('Solver')
+        if not ci:
+            return out
+        for name, mem in ci.members.items():
+            if name in ('run', '__init__'):
+                continue
+            for n in ast.walk(mem.node):
+                if isinstance(n, ast.Assign) and isinstance(n.value, ast.Constant) and isinstance(n.value.value, bool) \
+                        and any(isinstance(t, ast.Attribute) and isinstance(t.value, ast.Name) and t.value.id == 'self'
+                                for t in n.targets):
+                    out.add(name)
+        return out
 
     # ---- hooks
     def call_hook(self, sx, n, f, recv, args, kwargs, st, frame):
